@@ -16,7 +16,7 @@ from typing import Optional
 
 from . import cbor_mini
 from .index import AnalysisError, ClassInfo, FuncInfo, Mod, Repo
-from .terms import (App, Const, Ref, Sym, Term, dict_pairs, is_const, list_items, mk_cat, mk_dict, mk_list,
+from .terms import (substitute, App, Const, Ref, Sym, Term, dict_pairs, is_const, list_items, mk_cat, mk_dict, mk_list,
                     mk_tuple, phi)
 
 BINOPS = {
@@ -866,9 +866,35 @@ class Evaluator:
             return self.invoke(callee.args[0].obj, callee.args[1], args, kwargs, starkw, e, st, fr)
         if isinstance(callee, App) and callee.op == "cmeth":
             return self.call_method(callee.args[0], callee.args[1].v, args, kwargs, starkw, e, st, fr)
+        if isinstance(callee, App) and callee.op == "phi" and self._callable_alternatives(callee) and fr.depth < 8:
+            # calling `A if c else B`: the call of A when c, the call of B otherwise
+            g, ca, cb = callee.args
+            return self._expr_branch(g, st, e, lambda a_: self.call_term(ca, list(args), dict(kwargs), starkw, e, a_, fr),
+                                     lambda b_: self.call_term(cb, list(args), dict(kwargs), starkw, e, b_, fr))
         t = App("call", [callee] + args + self.kwterms(kwargs) + ([App("starkw", (starkw,))] if starkw else []), e)
         self.record_call(t, st)
         return t
+
+    def _callable_alternatives(self, t, depth=0) -> bool:
+        """Some alternative of a conditional value is a known class / function (the others may be None or unknown)."""
+        if isinstance(t, App) and t.op == "phi" and depth < 6:
+            return self._callable_alternatives(t.args[1], depth + 1) or self._callable_alternatives(t.args[2], depth + 1)
+        return (isinstance(t, Ref) and t.kind in ("class", "func")) or (isinstance(t, App) and t.op == "bound")
+
+    def _expr_branch(self, g, st, node, run_a, run_b):
+        """Expression-level two-way split: both alternatives are evaluated on copies of the state; effects, heap and value are joined
+        under the condition."""
+        base_e = len(st.effects)
+        a, b = st.copy(), st.copy()
+        va, vb = run_a(a), run_b(b)
+        ta, tb = a.effects[base_e:], b.effects[base_e:]
+        if ta or tb:
+            st.effects.append(App("eff:if", (g, App("seq", ta), App("seq", tb)), node))
+        for k in set(a.heap) | set(b.heap):
+            x, y = a.heap.get(k), b.heap.get(k)
+            dflt = App("attr:" + k[1], (k[0],))
+            st.heap[k] = phi(g, x if x is not None else dflt, y if y is not None else dflt)
+        return phi(g, va, vb, node)
 
     def construct(self, ci: ClassInfo, args, kwargs, starkw, e, st, fr):
         if self.is_enum(ci):
@@ -959,6 +985,20 @@ class Evaluator:
                 return self.cbor(args[0], e)
         if dotted == "cbor2.CBORTag" and len(args) == 2:
             return App("tag", args, e)
+        if dotted == "next" and len(args) in (1, 2) and not kwargs and isinstance(args[0], App) and args[0].op == "comp:gen" and len(args[0].args) == 3:
+            # next(<element> for <item> in <static table> if <test>, default): the first item whose test holds
+            body, it, conds = args[0].args
+            items = self.iter_items(it)
+            if items is not None and len(items) <= 32 and len(args) == 2:
+                el = App("elem", (it,))
+                out = args[1]
+                for item in reversed(items):
+                    m_ = {el: item}
+                    cs = [self._fold_unpack(substitute(c, m_)) for c in conds.args]
+                    val = self._fold_unpack(substitute(body, m_))
+                    g_ = cs[0] if len(cs) == 1 else (App("and", tuple(cs)) if cs else Const(True))
+                    out = phi(g_, val, out, e)
+                return out
         if dotted in ("cbor2.loads", "cbor2.load") and len(args) == 1 and not kwargs:
             site = Const(("site", getattr(e, "lineno", 0), getattr(e, "col_offset", 0)))
             t = App("cborload", (args[0], site), e)
@@ -989,6 +1029,17 @@ class Evaluator:
             extra = [Const(("site", getattr(e, "lineno", 0), getattr(e, "col_offset", 0)))]
         t = App("call:" + dotted, extra + args + self.kwterms(kwargs) + ([App("starkw", (starkw,))] if starkw else []), e)
         self.record_call(t, st)
+        return t
+
+    def _fold_unpack(self, t):
+        """unpack(<static sequence>, i, n) -> its i-th item (after an element of a static table was substituted)."""
+        if isinstance(t, App):
+            args = [self._fold_unpack(a) for a in t.args]
+            if t.op == "unpack" and isinstance(args[1], Const) and isinstance(args[2], Const):
+                li = list_items(args[0])
+                if li is not None and len(li) == args[2].v:
+                    return li[args[1].v]
+            return App(t.op, args, t.node)
         return t
 
     def cbor(self, t, node=None):
@@ -1062,20 +1113,30 @@ class Evaluator:
             while all(len(o.conds) > i for o in outs) and all(o.conds[i] == outs[0].conds[i] for o in outs):
                 i += 1
             if not all(len(o.conds) > i for o in outs):
-                o = outs[0]
-                return o.value, o.effects[base_e:], o.heap
-            g = outs[0].conds[i]
-            gpos, gneg = self._split_guard(g)
-            a = [o for o in outs if o.conds[i] == g]
-            b = [o for o in outs if o.conds[i] != g]
-            if not b:
-                o = outs[0]
-                return o.value, o.effects[base_e:], o.heap
-            # strip condition i for the recursive merge by advancing index implicitly
-            for o in a + b:
-                o.conds = o.conds[:i] + o.conds[i + 1:]
-            va, ea, ha = merge(a)
-            vb, eb, hb = merge(b)
+                # a return with conditions of its own (inside a loop / a nested test) next to a return that stands for all the other
+                # paths: the former is selected by the conjunction of its own conditions
+                spec = next((o for o in outs if len(o.conds) > i), None)
+                rest = [o for o in outs if o is not spec]
+                if spec is None or not rest:
+                    o = outs[0]
+                    return o.value, o.effects[base_e:], o.heap
+                cj = spec.conds[i:]
+                g = cj[0] if len(cj) == 1 else App("and", tuple(cj))
+                spec.conds = spec.conds[:i]
+                va, ea, ha = merge([spec])
+                vb, eb, hb = merge(rest)
+            else:
+                g = outs[0].conds[i]
+                a = [o for o in outs if o.conds[i] == g]
+                b = [o for o in outs if o.conds[i] != g]
+                if not b:
+                    o = outs[0]
+                    return o.value, o.effects[base_e:], o.heap
+                # strip condition i for the recursive merge by advancing index implicitly
+                for o in a + b:
+                    o.conds = o.conds[:i] + o.conds[i + 1:]
+                va, ea, ha = merge(a)
+                vb, eb, hb = merge(b)
             heap = dict(ha)
             for k in set(ha) | set(hb):
                 x, y = ha.get(k), hb.get(k)
